@@ -17,4 +17,7 @@ let () =
   pr "enum@after-use" c03_enum_mismatches_after;
   pr "classification@after-use" c03_classification_mismatches_after;
   pr "registry@after-use" c03_registry_mismatches_after;
+  pr "enum@public-import" c03_enum_mismatches_public;
+  pr "classification@public-import" c03_classification_mismatches_public;
+  pr "registry@public-import" c03_registry_mismatches_public;
   print_endline "END"
